@@ -17,7 +17,7 @@ import time
 VERIF = os.path.dirname(os.path.dirname(os.path.abspath(__file__)))
 DRIVER_DIR = os.path.join(VERIF, "engine", "dmx-facts")
 DRIVER = os.path.join(DRIVER_DIR, "target", "release", "dmx-facts")
-CACHE = os.path.join(VERIF, ".cache")
+CACHE = os.environ.get("DMX_CACHE") or os.path.join(VERIF, ".cache")
 REPO = os.environ.get("DMX_REPO", "/repo")
 
 _env_base = dict(os.environ)
